@@ -246,6 +246,32 @@ def alias_programs(seed, n):
     return out
 
 
+class _HostRecord:
+    """A host object with attributes (the specification does not model it)."""
+
+    def __init__(self, **kw):
+        self.__dict__.update(kw)
+
+    def __repr__(self):
+        return 'HostRecord(%s)' % ', '.join('%s=%r' % kv for kv in sorted(self.__dict__.items()))
+
+
+class _LazyRegistry(dict):
+    """A host mapping that creates entries on a missing subscript (like collections.defaultdict)."""
+
+    def __missing__(self, key):
+        self[key] = v = []
+        return v
+
+
+def exotic_host_objects(r):
+    import collections
+    dd = collections.defaultdict(list, {'x': [1, 2]}) if r.random() < 0.5 else collections.defaultdict(int, {'x': 3})
+    reg = _LazyRegistry(a=[1])
+    return {'dd': dd, 'od': collections.OrderedDict([('b', 1), ('a', [2])]), 'st': {3, 1, 2}, 'dq': collections.deque([3, 1, 2]),
+            'ho': _HostRecord(tags=['t'], n=1), 'reg': reg}
+
+
 NONMUT = ['len', 'str', 'keys', 'values', 'items', 'sum', 'min', 'max', 'sorted', 'reversed', 'enumerate', 'pretty', 'join', 'list', 'lower',
           'upper', 'strip', 'abs', 'int', 'round', 'floor', 'ceil', 'dict', 'split', 'get', 'index_of', 'startswith', 'endswith', 'replace',
           'map', 'filter', 'reduce', 'shuffle', 'rand', 'match', 'match_all', 'match_groups', 'float', '__getitem__']
@@ -264,7 +290,8 @@ def nonmutator_calls(seed, n):
                  's': r.choice(['b a c', '', 'Hello', 'a,b,,c']), 'n': r.choice([2, Decimal('2.5'), -1]),
                  'nn': [[3, 1], [2]], 'm': {'k': [2, 1]},
                  'ik': r.choice([{1: 'x', 2: [2, 1]}, {2: 'b', 1: 'a', 'k': 3}, {-1: [1], 0: 'z'}, {7: {1: 2}, 'rows': {3: 'c', 2: 'b'}}])}
-        args = ['a', 'b', 'd', 's', 'n', 'nn', 'm', 'ik', 'ik', 'm["k"]', 'nn[0]', 'None', 'True', 'v => 0 - v', 'v => v', '(p, q) => q', 'v => len(v)', '"a"', '" "', '0', '1',
+        names.update(exotic_host_objects(r))
+        args = ['a', 'b', 'd', 's', 'n', 'nn', 'm', 'ik', 'ik', 'm["k"]', 'nn[0]', 'dd', 'od', 'st', 'dq', 'ho', 'reg', 'None', 'True', 'v => 0 - v', 'v => v', '(p, q) => q', 'v => len(v)', '"a"', '" "', '0', '1',
                 'v => b', '(p, q) => p + q', 'v => str(v)']
         def call(depth):
             f = r.choice(NONMUT)
@@ -274,7 +301,7 @@ def nonmutator_calls(seed, n):
                 if depth > 0 and j == 0 and r.random() < 0.4:
                     xs.append(call(depth - 1))
                 else:
-                    xs.append(r.choice(args[:11] if j == 0 and r.random() < 0.8 else args + ['2', '7', '-1', '"rows"', 'ik["rows"]']))
+                    xs.append(r.choice(args[:17] if j == 0 and r.random() < 0.8 else args + ['2', '7', '-1', '"rows"', 'ik["rows"]', '"missing"', '"x"']))
             form = r.randrange(3)
             if form == 0 or len(xs) == 0 or '=>' in xs[0]:
                 return '%s(%s)' % (f, ', '.join(xs))
@@ -282,6 +309,13 @@ def nonmutator_calls(seed, n):
                 return '(%s | %s(%s))' % (xs[0], f, ', '.join(xs[1:])) if len(xs) > 1 else '(%s | %s)' % (xs[0], f)
             return '%s(%s)' % (f, ', '.join(xs))
         lines = [call(2) for _ in range(r.randrange(1, 4))]
+        if r.random() < 0.3:
+            # the read-only accessors on host objects of unmodelled types, with present and absent keys
+            x = r.choice(['dd', 'od', 'reg', 'ho', 'st', 'dq', 'ik', 'd'])
+            k = r.choice(['"missing"', '"x"', '"a"', '0', '7', 'None', '"b"'])
+            lines.insert(r.randrange(len(lines) + 1), r.choice(['get(%s, %s)' % (x, k), '(%s | get(%s, 0))' % (x, k), 'get(%s, %s, [])' % (x, k),
+                                                                 'len(%s)' % x, 'str(%s)' % x, 'keys(%s)' % x, 'index_of(%s, %s)' % (x, k),
+                                                                 'max(%s)' % x, 'sum(%s)' % x, 'join(%s, ",")' % x, 'values(%s)' % x]))
         out.append({'names': [names], 'host': {}, 'calls': [{'src': '\n'.join(lines), 'n': 0, 'max': 600}]})
     return out
 
